@@ -135,6 +135,7 @@ type c08Scenario struct {
 	mode  string // "barrier": one frame per step; "burst": all frames in one write; "f1": Select+Deselect burst
 	syms  []sym
 	split int // burst mode: write the burst in this many pieces (1 = one write)
+	cutAt int // burst mode: >0 = write the burst in two pieces cut at exactly this byte offset
 	selRspStatus int // active role: status of the Select.rsp that is played first (-1: none)
 }
 
@@ -237,7 +238,11 @@ func c08Worker(passive, validate bool, jobs <-chan c08Scenario, w *rec.Writer, s
 				}
 			}
 			if len(burst) > 0 {
-				got, _ := step(cut, p, burst, names, sc.split)
+				pieces := sc.split
+				if sc.cutAt > 0 {
+					pieces = -sc.cutAt
+				}
+				got, _ := step(cut, p, burst, names, pieces)
 				line.Steps = append(line.Steps, got)
 			}
 		}()
@@ -277,7 +282,9 @@ func step(cut *lab.CUT, p *peerkit.PeerConn, tx []peerkit.Frame, names []string,
 	for _, f := range tx {
 		buf = append(buf, f.Bytes()...)
 	}
-	if pieces <= 1 {
+	if pieces < 0 { // one explicit cut
+		_ = p.WriteSplit(buf, []int{-pieces}, 400*time.Microsecond)
+	} else if pieces <= 1 {
 		_ = p.Write(buf)
 	} else {
 		var cuts []int
@@ -322,6 +329,7 @@ func runC08(args []string) int {
 	seed := fs.Int64("seed", 1, "PRNG seed")
 	out := fs.String("out", "", "observation file")
 	workers := fs.Int("workers", 6, "CUTs per configuration")
+	pipeline := fs.Bool("pipeline", false, "only the pipelining family: select + k data frames in one burst, cut at every byte offset")
 	fs.Parse(args)
 	w, err := rec.Create(*out)
 	if err != nil {
@@ -366,6 +374,46 @@ func runC08(args []string) int {
 	}
 	faults := 0
 	id := 0
+	if *pipeline {
+		for _, passive := range []bool{true, false} {
+			jobs := make(chan c08Scenario, 256)
+			var wg sync.WaitGroup
+			for k := 0; k < *workers; k++ {
+				wg.Add(1)
+				go c08Worker(passive, false, jobs, w, *seed*100+int64(k)+500, &wg, &faults)
+			}
+			datas := []sym{symDataPrimaryW, symDataPrimaryNoW, symDataSecondary}
+			for k := 1; k <= 3; k++ {
+				q := []sym{}
+				if passive {
+					q = append(q, symSelectReq)
+				}
+				for j := 0; j < k; j++ {
+					q = append(q, datas[(j+int(*seed))%3])
+				}
+				total := 0
+				for _, s := range q {
+					total += len(mkFrame(s, 1, r).Bytes())
+				}
+				if !passive {
+					total += 14 // the pipelined Select.rsp
+				}
+				for cut := 0; cut < total; cut++ {
+					id++
+					jobs <- c08Scenario{id: id, mode: "burst", syms: q, split: 1, cutAt: cut, selRspStatus: 0}
+				}
+			}
+			close(jobs)
+			wg.Wait()
+		}
+		if err := w.Close(); err != nil {
+			fmt.Fprintln(os.Stderr, err)
+			return 2
+		}
+		b, _ := json.Marshal(map[string]int{"lines": w.N, "faults": faults})
+		fmt.Println(string(b))
+		return 0
+	}
 	for _, cfg := range []struct{ passive, validate bool }{{true, false}, {true, true}, {false, false}, {false, true}} {
 		jobs := make(chan c08Scenario, 256)
 		var wg sync.WaitGroup
